@@ -575,6 +575,118 @@ fn run_sweep<T: Fl>(c: &SCase, lx: &mut Local) {
     }
 }
 
+/// Both operands of a weighted routine are views of ONE buffer: same first element, different
+/// strides / a matrix and its transpose / overlapping windows / a lane of the matrix as weights.
+#[derive(Debug, Clone)]
+struct AliasCase {
+    digits: Vec<u8>,
+    kind: u8,
+}
+
+fn run_alias(c: &AliasCase, lx: &mut Local) {
+    const V: [f64; 4] = [-1.5, 0.5, 2.0, 3.25];
+    const VI: [i64; 4] = [-1, 1, 2, 3];
+    let bf: Vec<f64> = c.digits.iter().map(|&d| V[d as usize]).collect();
+    let bi: Vec<i64> = c.digits.iter().map(|&d| VI[d as usize]).collect();
+    let m = bf.len();
+    let u = f64::EPSILON / 2.0;
+    lx.single(|lx| {
+        let af = Array1::from(bf.clone());
+        let ai = Array1::from(bi.clone());
+        let mut obs: Vec<u64> = Vec::new();
+        // (name, float pair, int pair) as logical vectors + the calls
+        let mut judge = |what: String, xf: Vec<f64>, wf: Vec<f64>, gotf: Result<Result<f64, MultiInputError>, String>, gotm: Result<Result<f64, MultiInputError>, String>, xi: Vec<i64>, wi: Vec<i64>, goti: Result<Result<i64, MultiInputError>, String>, lx: &mut Local| {
+            let n = xf.len();
+            let (s, a) = fl::weighted_sum(&rats(&xf), &rats(&wf));
+            let sb = c4(n) * u * a.to_f64_up_abs();
+            match gotf {
+                Ok(Ok(g)) => {
+                    let e = err_of(g, &s);
+                    lx.within(e, sb, "C06/weighted-sum-aliasing", || format!("{}: weighted_sum = {:e}, exact {:e} (data {:?}, weights {:?})", what, g, s.to_f64(), xf, wf));
+                    obs.push(g.to_bits());
+                }
+                other => lx.fail("C06/weighted-sum-failed", || format!("{}: {:?}", what, other)),
+            }
+            let wtot = sum(rats(&wf).iter());
+            if !wtot.is_zero() {
+                let want = &s / &wtot;
+                let b = 2.0 * c4(n) * u * (a.to_f64_up_abs() / wtot.to_f64().abs());
+                match gotm {
+                    Ok(Ok(g)) => {
+                        let e = err_of(g, &want);
+                        lx.within(e, b, "C06/weighted-mean-aliasing", || format!("{}: weighted_mean = {:e}, exact {:e} (data {:?}, weights {:?})", what, g, want.to_f64(), xf, wf));
+                    }
+                    other => lx.fail("C06/weighted-mean-failed", || format!("{}: {:?}", what, other)),
+                }
+            }
+            let wanti: i64 = xi.iter().zip(&wi).map(|(x, w)| x * w).sum();
+            match goti {
+                Ok(Ok(g)) => {
+                    lx.check(g == wanti, "C06/int-weighted-sum-aliasing", || format!("{}: i64 weighted_sum = {}, exact {} (data {:?}, weights {:?})", what, g, wanti, xi, wi));
+                }
+                other => lx.fail("C06/weighted-sum-failed", || format!("{} (i64): {:?}", what, other)),
+            }
+        };
+        match c.kind {
+            0 => {
+                let n = (m + 1) / 2;
+                let (x, w) = (af.slice(ndarray::s![..n]), af.slice(ndarray::s![..2 * n - 1;2]));
+                let (xi, wi) = (ai.slice(ndarray::s![..n]), ai.slice(ndarray::s![..2 * n - 1;2]));
+                judge(format!("buf[..{}] weighted by buf[..{};2] of one buffer", n, 2 * n - 1), x.to_vec(), w.to_vec(), guarded(|| x.weighted_sum(&w)), guarded(|| x.weighted_mean(&w)), xi.to_vec(), wi.to_vec(), guarded(|| xi.weighted_sum(&wi)), lx);
+                judge(format!("buf[..{};2] weighted by buf[..{}] of one buffer", 2 * n - 1, n), w.to_vec(), x.to_vec(), guarded(|| w.weighted_sum(&x)), guarded(|| w.weighted_mean(&x)), wi.to_vec(), xi.to_vec(), guarded(|| wi.weighted_sum(&xi)), lx);
+            }
+            1 => {
+                let (x, w) = (af.slice(ndarray::s![..m - 1]), af.slice(ndarray::s![1..]));
+                let (xi, wi) = (ai.slice(ndarray::s![..m - 1]), ai.slice(ndarray::s![1..]));
+                judge("overlapping windows buf[..m-1] weighted by buf[1..]".to_string(), x.to_vec(), w.to_vec(), guarded(|| x.weighted_sum(&w)), guarded(|| x.weighted_mean(&w)), xi.to_vec(), wi.to_vec(), guarded(|| xi.weighted_sum(&wi)), lx);
+            }
+            2 => {
+                let (x, w) = (af.view(), af.slice(ndarray::s![..;-1]));
+                let (xi, wi) = (ai.view(), ai.slice(ndarray::s![..;-1]));
+                judge("a buffer weighted by its own reversed view".to_string(), x.to_vec(), w.to_vec(), guarded(|| x.weighted_sum(&w)), guarded(|| x.weighted_mean(&w)), xi.to_vec(), wi.to_vec(), guarded(|| xi.weighted_sum(&wi)), lx);
+                judge("a buffer weighted by itself".to_string(), x.to_vec(), x.to_vec(), guarded(|| x.weighted_sum(&x)), guarded(|| x.weighted_mean(&x)), xi.to_vec(), xi.to_vec(), guarded(|| xi.weighted_sum(&xi)), lx);
+            }
+            _ => {
+                let k = (m as f64).sqrt() as usize;
+                let sf = Array2::from_shape_vec((k, k), bf[..k * k].to_vec()).unwrap();
+                let si = Array2::from_shape_vec((k, k), bi[..k * k].to_vec()).unwrap();
+                let (x, w) = (sf.view(), sf.t());
+                let (xi, wi) = (si.view(), si.t());
+                judge("a square matrix weighted by its own transpose".to_string(), x.iter().cloned().collect(), w.iter().cloned().collect(), guarded(|| x.weighted_sum(&w)), guarded(|| x.weighted_mean(&w)), xi.iter().cloned().collect(), wi.iter().cloned().collect(), guarded(|| xi.weighted_sum(&wi)), lx);
+                judge("the transpose weighted by the matrix".to_string(), w.iter().cloned().collect(), x.iter().cloned().collect(), guarded(|| w.weighted_sum(&x)), guarded(|| w.weighted_mean(&x)), wi.iter().cloned().collect(), xi.iter().cloned().collect(), guarded(|| wi.weighted_sum(&xi)), lx);
+                // per-axis forms with a lane of the matrix itself as the weights (same first element)
+                for axis in 0..2usize {
+                    let wl = if axis == 0 { sf.column(0) } else { sf.row(0) };
+                    let wli = if axis == 0 { si.column(0) } else { si.row(0) };
+                    let gs = guarded(|| sf.view().weighted_sum_axis(Axis(axis), &wl));
+                    let gi = guarded(|| si.view().weighted_sum_axis(Axis(axis), &wli));
+                    let gm = guarded(|| sf.view().weighted_mean_axis(Axis(axis), &wl));
+                    for j in 0..k {
+                        let lane: Vec<f64> = (0..k).map(|t| if axis == 0 { sf[[t, j]] } else { sf[[j, t]] }).collect();
+                        let lanei: Vec<i64> = (0..k).map(|t| if axis == 0 { si[[t, j]] } else { si[[j, t]] }).collect();
+                        let pick = |r: &Result<Result<Array1<f64>, MultiInputError>, String>| -> Result<Result<f64, MultiInputError>, String> {
+                            match r {
+                                Ok(Ok(a)) if a.len() == k => Ok(Ok(a[j])),
+                                Ok(Ok(a)) => Err(format!("result has {} entries", a.len())),
+                                Ok(Err(e)) => Ok(Err(e.clone())),
+                                Err(m) => Err(m.clone()),
+                            }
+                        };
+                        let picki: Result<Result<i64, MultiInputError>, String> = match &gi {
+                            Ok(Ok(a)) if a.len() == k => Ok(Ok(a[j])),
+                            Ok(Ok(a)) => Err(format!("result has {} entries", a.len())),
+                            Ok(Err(e)) => Ok(Err(e.clone())),
+                            Err(m) => Err(m.clone()),
+                        };
+                        judge(format!("weighted_*_axis({}) of a square matrix with its own first {} as weights, lane {}", axis, if axis == 0 { "column" } else { "row" }, j), lane, wl.to_vec(), pick(&gs), pick(&gm), lanei, wli.to_vec(), picki, lx);
+                    }
+                }
+            }
+        }
+        hash_of(&obs)
+    });
+}
+
 fn main() {
     let mut rep = Report::new("C06");
     rep.rule = "case = (data array over the alphabet, offset, scale, element type) with weight vectors and stride pairs inside (1-D); (shape, axis, data layout, weights stride, fill) in n-D; non-trivial = length >= 2".into();
@@ -658,13 +770,29 @@ fn main() {
             }
         },
     );
+    // operands that alias each other
+    let acases = (3..=5usize)
+        .flat_map(|m| sequences(m, 4).flat_map(move |d| (0..3u8).map(move |kind| AliasCase { digits: d.clone(), kind })))
+        .chain(sequences(4, 4).map(|d| AliasCase { digits: d, kind: 3 }))
+        .chain(sequences(9, 3).map(|d| AliasCase { digits: d, kind: 3 }));
+    rep.run_sub(
+        "aliasing-operands",
+        "data and weights are views of ONE buffer: all sequences over 4 values of length 3..=5 as (buf[..n], buf[..2n-1;2]) in both roles, overlapping windows, a buffer against its reversed view and against itself; every 2x2 matrix over 4 values and every 3x3 matrix over 3 values against its own transpose (both roles), and weighted_sum_axis / weighted_mean_axis with the matrix's own first column / row as weights; f64 against the exact value, i64 exactly",
+        acases,
+        |c, lx| {
+            lx.nontrivial(c.digits.iter().any(|&d| d != c.digits[0]));
+            run_alias(c, lx)
+        },
+    );
     let thorough = rep.cfg.thorough();
-    let shapes: Vec<Vec<usize>> = vec![vec![2, 3], vec![3, 2], vec![3, 2, 2], vec![2, 2, 3]];
+    let shapes: Vec<Vec<usize>> = vec![vec![2, 3], vec![3, 2], vec![3, 2, 2], vec![2, 2, 3], vec![2, 2, 2, 2], vec![2, 3, 1, 2], vec![2, 1, 2, 2, 2]];
     let mut ncases: Vec<NCase> = Vec::new();
     for shape in &shapes {
         let d = shape.len();
         for axis in 0..d {
-            for (li, l) in all_layouts(d, &[1, 2, -1, -2]).into_iter().enumerate() {
+            // 4-D and 5-D: a covering subset of the layouts (every axis permutation, every step on every axis)
+            let layouts = if d <= 3 { all_layouts(d, &[1, 2, -1, -2]) } else { nsmc::layouts::covering_layouts(d, &[1, 2, -1, -2]) };
+            for (li, l) in layouts.into_iter().enumerate() {
                 let nf = if thorough { 12 } else { 6 };
                 for fill in 0..nf {
                     let wstep = [1isize, -1, 2, -3][(li + fill) % 4];
@@ -675,7 +803,7 @@ fn main() {
     }
     rep.run_sub(
         "n-dimensional",
-        &format!("shapes {:?} x every axis x all data layouts x weights strides {{1,-1,2,-3}} x {} fills (mixed signs, 1e6 offsets), f64/f32 alternating: weighted_sum_axis, weighted_mean_axis per lane vs exact and vs the whole-array routine on the lane; whole-array weighted_sum with the weights array in the opposite layout; mean", shapes, if thorough { 12 } else { 6 }),
+        &format!("shapes {:?} x every axis x all data layouts (4-D, 5-D: covering subset) x weights strides {{1,-1,2,-3}} x {} fills (mixed signs, 1e6 offsets), f64/f32 alternating: weighted_sum_axis, weighted_mean_axis per lane vs exact and vs the whole-array routine on the lane; whole-array weighted_sum with the weights array in the opposite layout; mean", shapes, if thorough { 12 } else { 6 }),
         ncases.into_iter(),
         |c, lx| {
             lx.nontrivial(true);
